@@ -488,7 +488,8 @@ fn apply_inner(
             } else {
                 subregion.translate(-region.x(), -region.y())
             }
-            .unwrap();
+            // A subregion far away from the region is not representable relative to it.
+            .ok_or(Error::InvalidRegion)?;
 
             let color_space = result.color_space;
 
@@ -895,7 +896,10 @@ fn apply_flood(fe: &usvg::filter::Flood, region: IntRect) -> Result<Image, Error
 }
 
 fn apply_tile(input: Image, region: IntRect) -> Result<Image, Error> {
-    let subregion = input.region.translate(-region.x(), -region.y()).unwrap();
+    let subregion = input
+        .region
+        .translate(-region.x(), -region.y())
+        .ok_or(Error::InvalidRegion)?;
 
     let tile_pixmap = input.image.copy_region(subregion)?;
     let mut paint = tiny_skia::Paint::default();
